@@ -245,6 +245,65 @@ def exec_case(case):
     return Outcome(classes=classes, nontrivial=nt, info={"failing_item": list(fail), "raised": type(exc).__name__})
 
 
+def exec_real(case):
+    """one failing item on REAL multiprocessing: the call must raise, not return, not hang"""
+    import os
+    import multiprocessing as mp
+    from ..core import fresh_dir
+    from ..realmp import FileRecorder, watchdog, WatchdogExpired, reap_children
+
+    stage = case["stage"]
+    k = case["k"]
+    ref = scen.ref_of(case)
+    order = [p for p in ref.order if p in (ref.ops if stage == "walk" else ref.leaves)]
+    if not order:
+        return Outcome(classes=["realmp", stage, "no-items"], nontrivial=False)
+    fail = order[case["fail_idx"] % len(order)]
+    E = exc_class(case.get("exc", "runtime"))
+    desc = dict(case)
+    desc["failing_item"] = list(fail)
+    with fresh_dir("c19r-") as d:
+        rec = FileRecorder(os.path.join(d, "log"), fail_at=fail, fail_exc=E)
+        status, exc, hang = "returned", None, None
+        devnull = os.open(os.devnull, os.O_WRONLY)
+        saved = os.dup(2)
+        os.dup2(devnull, 2)  # the failing worker prints its traceback
+        try:
+            with watchdog(40):
+                if stage == "walk":
+                    scen.make_pyramid(case).walk(rec.walk_cb, parallel=k)
+                else:
+                    scen.make_pyramid(case).visit_leaves(rec.leaf_cb, parallel=k)
+        except WatchdogExpired:
+            if any(c.is_alive() for c in mp.active_children()):
+                status = "inconclusive"  # a wall clock alone is never a verdict (Engine A decides hangs structurally)
+            else:
+                status, hang = "hang", "still waiting 40 s after the item failed although every worker process has exited (real multiprocessing)"
+        except Exception as e:  # noqa
+            status, exc = "raised", e
+        finally:
+            os.dup2(saved, 2)
+            os.close(saved)
+            os.close(devnull)
+            reap_children(1)
+    if status == "inconclusive":
+        return Outcome(classes=["realmp", "watchdog-inconclusive"], nontrivial=False)
+    judge(desc, status, exc, hang)
+    return Outcome(classes=["realmp", stage, f"k{k}", "exc:" + case.get("exc", "runtime")], nontrivial=fail != order[0], info={"raised": type(exc).__name__})
+
+
+@st.composite
+def strat_real(draw, tier):
+    case = draw(scen.pyramid_cases(3, with_k=False, min_depth=1))
+    if case.get("apex") is not None and case["apex"][0] > 1:
+        case["apex"] = [1, case["apex"][1] % 2, case["apex"][2] % 2]
+    case["k"] = draw(st.sampled_from([2, 3, 4]))
+    case["stage"] = draw(st.sampled_from(["walk", "leaves"]))
+    case["fail_idx"] = draw(st.integers(0, 2000))
+    case["exc"] = draw(st.sampled_from(["runtime", "os", "value", "key"]))
+    return case
+
+
 @st.composite
 def strat(draw, tier):
     stage = draw(st.sampled_from(["walk", "walk", "leaves", "leaves", "transform", "transform", "multi_tan", "multi_wcs"]))
@@ -278,6 +337,17 @@ def strat(draw, tier):
 
 PARTS = [
     Part(
+        "fail_one_item_realmp",
+        exec_real,
+        strategy=strat_real,
+        examples={"quick": 32, "thorough": 400},
+        shards={"quick": 8, "thorough": 16},
+        budget_s={"quick": 70, "thorough": 1500},
+        shrink=False,
+        engine="R (real multiprocessing)",
+        describe="walk / visit_leaves with one failing item on real multiprocessing with 2-4 workers (a hang is detected by a 40 s watchdog)",
+    ),
+    Part(
         "fail_one_item_sim",
         exec_case,
         strategy=strat,
@@ -288,3 +358,7 @@ PARTS = [
         describe="walk, visit_leaves, u8_to_rgb and multi-image tiling with exactly one failing item (exception class generated: RuntimeError, OSError, ValueError, KeyError, queue.Empty, ...) x k x schedules",
     ),
 ]
+
+
+def extra_coverage(cov_parts):
+    return {"traces_validated_against_impl": cov_parts.get("fail_one_item_realmp", {}).get("evaluations", 0)}
